@@ -68,7 +68,55 @@ def run(ctx: Ctx, prop: str) -> int:
     return n
 
 
+def noprot_case(c, alg, kind):
+    """JwsNoProtected.tla: a JSON token signed with its whole header unprotected, to which a "protected" member is added"""
+    from joserfc import jws, rfc7797
+    jwk = K.get(kind, 0)
+    payload = b"payload-without_protected"
+    unprot = {"alg": alg, "cty": "unprotected only"}
+    body = R.b64e(payload)
+    sig = R.jws_sign(alg, jwk, b"." + body)
+    member = {"header": unprot, "signature": R.b64e(sig).decode()}
+    seg = {"absent": None, "e30": "e30", "IHt9": "IHt9", "obj_cty": R.b64e(b'{"cty":"x"}').decode()}[c["protected"]]
+    if seg is not None:
+        member["protected"] = seg
+    tok = {"payload": body.decode(), **member} if c["ser"] == "flattened" else {"payload": body.decode(), "signatures": [member]}
+    mod = jws if c["entry"] == "jws" else rfc7797
+    try:
+        got = mod.deserialize_json(tok, J.jkey(J.pub(jwk)), algorithms=[alg]).payload
+        return "ok" if got == payload else "ok-other-payload"
+    except Exception as e:  # noqa
+        return "reject:" + type(e).__name__
+
+
+def run_noprot(ctx: Ctx) -> int:
+    r = ctx.tlc("JwsNoProtected", timeout=300)
+    ctx.sensitivity("JwsNoProtected", "JwsNoProtected_dev_EmptyProtectedTakenAsAbsent")
+    cases = list({json.dumps(c, sort_keys=True): c for c in r.cases}.values())
+    if len(cases) < 8:
+        raise MachineryError("JwsNoProtected export too small")
+    n = 0
+    for alg, kind in ALGS:
+        for c in cases:
+            n += 1
+            o = noprot_case(c["c"], alg, kind)
+            ctx.nontrivial.add("noprot:" + alg + json.dumps(c["c"], sort_keys=True))
+            if o.split(":")[0] != c["verdict"]:
+                if c["verdict"] == "ok":
+                    ctx.note_drift({"noprot": c["c"], "alg": alg, "observed": o})
+                else:
+                    ctx.violation(f"noprot:{c['c']['entry']}.{c['c']['ser']} protected={c['c']['protected']} added to a token signed without protected header -> accepted [{alg}]",
+                                  {"noprot_case": c["c"], "alg": alg, "kind": kind, "observed": o, "inflight": True})
+    return n
+
+
 def replay(ctx: Ctx, rec: dict) -> None:
+    if "noprot_case" in rec:
+        o = noprot_case(rec["noprot_case"], rec["alg"], rec["kind"])
+        print(rec["noprot_case"], "->", o)
+        if o.startswith("ok"):
+            ctx.violation(rec["signature"], {"now": o})
+        return
     out = replay_case(rec["case"], rec["alg"], rec["kind"])
     print(json.dumps(rec["case"]), "->", out)
     if any(p == ctx.prop for p, *_ in out):
